@@ -26,7 +26,7 @@ claim("C09", "Provider meter invariants at every BeginBlock, per-packet admit/bo
       "send/ack automaton and conservation of queued slash packets.", "online invariant monitor + offline checker over the meter log + trace automaton", "2/C09")
 claim("C13", "Store-diff monitor: every key of the provider store changed by the transaction phase, by BeginBlock lifecycle processing and by non-epoch EndBlocks is "
       "attributed to a consumer id and must belong to a consumer the block concerns (ids 0..25+ so that textual-prefix pairs exist).",
-      "online store snapshot/diff monitor with a key-layout decoder", "2/C13")
+      "online store snapshot/diff monitor with a key-layout decoder (+ per-consumer reward-denom rule on BeginBlock credit consumption)", "2/C13, 10.7")
 claim("C14", "Authorization-table oracle over a directed matrix of real signed transactions (incl. forged signer fields and governance proposals), tx-level "
       "store diffs for rejected messages, per-validator key attribution for accepted ones, and a standing ownership/Top-N invariant in all worlds.",
       "directed hostile workload + decision-table oracle + store-diff monitor + standing invariant", "2/C14")
@@ -45,7 +45,7 @@ claim("C19", "Fault enumeration at the module boundary: every external-module ca
       "2/C19", category="fault_enumeration")
 claim("C11", "Per-block monitor of every stopped consumer: no updates computed or sent, retained state compared key by key until the removal time, removal exactly in the "
       "first block at/after stop+unbonding, complete deletion of the enumerated state categories, channel closed.",
-      "online store-diff monitor with shadow of stop times (virtual-time deadlines)", "2/C11")
+      "online store-diff monitor with shadow of stop times (virtual-time deadlines) + boundary-call log (no send attempt to a stopped consumer)", "2/C11, 10.7")
 claim("C17", "Directed hostile handshake matrix with real proofs (malicious consumer channel ends), honest handshakes, repetition, consumer-side refusals, launches on a "
       "shared connection; standing bijection check of the consumer/client/channel maps after every provider block of every world; which provider set a live chain "
       "adopts is judged per consumer id by the C01 monitor.", "directed hostile workload + standing invariant monitor over the raw store", "2/C17")
